@@ -214,15 +214,68 @@ def _apply_rules(ed: _Edit, toks, lo, hi, repo, opts, rules, dropped, file):
                 continue
             if t.text in ('ok', 'some'):
                 body = _macro_body(repo, t.text)
-                # nested ok!(..) inside the argument is not expected; argument copied verbatim
-                arg = ''.join(x.text for x in toks[o + 1:c])
-                if re.search(r'\b(ok|some|debug)\s*!', arg):
-                    raise AnchorLost('nested macro in %s! argument at %s:%d' % (t.text, file, t.line))
-                ed.replace(k, c, '(' + body.replace('$expr', '(' + arg + ')') + ')')
+                if body.count('$expr') != 1:
+                    raise AnchorLost('macro %s!: unexpected body' % t.text)
+                pre, suf = body.split('$expr')
+                # compositional expansion: the argument's own tokens stay in place (so the other rules apply inside it)
+                ed.replace(k, o, '(' + pre + '(')
+                ed.replace(c, c, ')' + suf + ')')
                 bump('X2-' + t.text)
-                p = pos[c] + 1
+                p = pos[o] + 1
                 continue
+        # X2b: `RECV.map_err(|e| { BODY })` with an inline closure becomes the match it abbreviates (std's definition of
+        # Result::map_err), so that the closure body is ordinary code of the function
+        if 'desugar_map_err' in opts and t.kind == 'ident' and t.text == 'map_err' and p >= 1 and toks[ci[p - 1]].text == '.' \
+                and p + 5 < len(ci) and toks[ci[p + 1]].text == '(' and toks[ci[p + 2]].text == '|' and toks[ci[p + 3]].kind == 'ident' \
+                and toks[ci[p + 4]].text == '|' and toks[ci[p + 5]].text == '{':
+            call_open = ci[p + 1]
+            call_close = rs.match_close(toks, call_open)
+            blk_close = rs.match_close(toks, ci[p + 5])
+            if pos[blk_close] + 1 >= len(ci) or ci[pos[blk_close] + 1] != call_close:
+                raise AnchorLost('map_err closure is not a single block at %s:%d' % (file, t.line))
+            q = _receiver_start(toks, ci, p - 2)
+            param = toks[ci[p + 3]].text
+            ed.ins_before(ci[q], '(match (')
+            ed.replace(ci[p - 1], ci[p + 4], ') { Ok(cv_ok) => Ok(cv_ok), Err(%s) => Err(' % param)
+            ed.replace(call_close, call_close, ') })')
+            dropped.append('%s:%d .map_err(|%s| {..}) written as the match it abbreviates (X2b)' % (file, t.line, param))
+            bump('X2b-map_err')
+            p = p + 5
+            continue
         p += 1
+
+
+def _receiver_start(toks, ci, q):
+    """code position of the first token of the postfix expression whose last token is at code position q"""
+    while q >= 0:
+        tq = toks[ci[q]]
+        if tq.kind == 'close' and tq.text in (')', ']'):
+            depth, r = 0, q
+            while r >= 0:
+                if toks[ci[r]].kind == 'close':
+                    depth += 1
+                elif toks[ci[r]].kind == 'open':
+                    depth -= 1
+                    if depth == 0:
+                        break
+                r -= 1
+            if r < 0:
+                break
+            q = r
+            if q - 1 >= 0 and (toks[ci[q - 1]].kind == 'ident' or (toks[ci[q - 1]].kind == 'close' and toks[ci[q - 1]].text in (')', ']'))):
+                q -= 1
+                continue
+            return q
+        if tq.kind == 'ident':
+            if q - 1 >= 0 and toks[ci[q - 1]].text == '.':
+                q -= 2
+                continue
+            if q - 2 >= 0 and toks[ci[q - 1]].text == ':' and toks[ci[q - 2]].text == ':':
+                q -= 3
+                continue
+            return q
+        return q + 1
+    raise AnchorLost('receiver expression not found')
 
 
 def _eval_cfg(inner, features):
